@@ -280,10 +280,10 @@ def hostRecv (fuel : Nat) (st : St) (n i : Nat) (f : Frame) : St × Frame :=
         if !nd.on then (st, f) else (st.modNode n (fun nd => nd.addArp sIp sMac i), f)
       | .echoReq ident =>
         if f.dstIp != ifc.ip then (st, f) else
-        let (st, out) := resolveOut fuel st n f.srcIp
-        match out with
-        | none => (st, f)
-        | some _ => (sendIcmp fuel st n f.srcIp (.echoRep ident), f)
+        let r := resolveOut fuel st n f.srcIp
+        match r.2 with
+        | none => (r.1, f)
+        | some _ => (sendIcmp fuel r.1 n f.srcIp (.echoRep ident), f)
       | .echoRep ident => (st.modNode n (fun nd => { nd with replies := bumpReply nd.replies ident }), f)
     | _, _ => (st, f)
 
@@ -295,10 +295,10 @@ def sendArpReply (fuel : Nat) (st : St) (n : Nat) (reply : Pl) : St :=
     match targetOf reply with
     | none => st
     | some t =>
-      let (st, out) := resolveOut fuel st n t
-      match out with
-      | none => st
-      | some _ => sendArpPkt fuel st n reply t
+      let r := resolveOut fuel st n t
+      match r.2 with
+      | none => r.1
+      | some _ => sendArpPkt fuel r.1 n reply t
 
 /-- `SessionManager.receive_payload_from_software_manager`, ARP branch. -/
 def sendArpPkt (fuel : Nat) (st : St) (n : Nat) (pl : Pl) (dstIp : Ip) : St :=
@@ -308,63 +308,72 @@ def sendArpPkt (fuel : Nat) (st : St) (n : Nat) (pl : Pl) (dstIp : Ip) : St :=
     match targetOf pl with
     | none => st
     | some t =>
-      let (st, out) := resolveOut fuel st n t
-      match out with
-      | none => st
+      let r := resolveOut fuel st n t
+      match r.2 with
+      | none => r.1
       | some o =>
-        match st.iface? n o with
-        | none => st
+        match r.1.iface? n o with
+        | none => r.1
         | some oif =>
-          let f : Frame := { id := st.nextId, srcMac := oif.mac, dstMac := plDstMac pl, srcIp := oif.ip, dstIp := dstIp,
-                             ttl := initTtl, pl := pl }
-          (sendFrame fuel { st with nextId := st.nextId + 1 } n o f).1
+          (sendFrame fuel { r.1 with nextId := r.1.nextId + 1 } n o
+            { id := r.1.nextId, srcMac := oif.mac, dstMac := plDstMac pl, srcIp := oif.ip, dstIp := dstIp,
+              ttl := initTtl, pl := pl }).1
 
-/-- `resolve_outbound_transmission_details` (host and router versions) + frame construction + `send_frame`, for an
-ICMP payload. -/
+/-- `resolve_outbound_transmission_details` (host and router versions), unicast branch: destination MAC and
+outbound interface. -/
+def resolveDetails (fuel : Nat) (st : St) (n : Nat) (dst : Ip) : St × Option Mac × Option Nat :=
+  match fuel with
+  | 0 => (st.out, none, none)
+  | fuel + 1 =>
+    match st.node? n with
+    | none => (st, none, none)
+    | some nd =>
+      let r1 : St × Option Mac :=
+        match firstEnabledIn nd.ifaces dst 0 with
+        | some _ => arpMac fuel st n dst false false
+        | none => (st, none)
+      match r1.2 with
+      | some m =>
+        let r2 := arpIfc fuel r1.1 n dst false false
+        (r2.1, some m, r2.2)
+      | none =>
+        match nd.kind with
+        | .host =>
+          match nd.gateway with
+          | none => (r1.1, none, none)
+          | some g =>
+            let r2 := arpMac fuel r1.1 n g false false
+            -- `get_default_gateway_network_interface` re-reads `has_enabled_network_interface`
+            match r2.1.node? n with
+            | none => (r2.1, r2.2, none)
+            | some nd' =>
+              if nd'.ifaces.any (·.enabled) then
+                let r3 := arpIfc fuel r2.1 n g false false
+                (r3.1, r2.2, r3.2)
+              else (r2.1, r2.2, none)
+        | .router =>
+          match (findBestRoute nd.routes dst).nextHop? with
+          | none => (r1.1.emit (.raised n), none, none)
+          | some nh =>
+            let r2 := arpMac fuel r1.1 n nh false false
+            let r3 := arpIfc fuel r2.1 n nh false false
+            (r3.1, r2.2, r3.2)
+        | .switch => (r1.1, none, none)
+
+/-- `receive_payload_from_software_manager` for an ICMP payload: resolve, build the frame, `send_frame`. -/
 def sendIcmp (fuel : Nat) (st : St) (n : Nat) (dst : Ip) (pl : Pl) : St :=
   match fuel with
   | 0 => st.out
   | fuel + 1 =>
-    match st.node? n with
-    | none => st
-    | some nd =>
-      let (st, dmac) :=
-        match firstEnabledIn nd.ifaces dst 0 with
-        | some _ => arpMac fuel st n dst false false
-        | none => (st, none)
-      let (st, dmac, out) :=
-        match dmac with
-        | some m => let (st, o) := arpIfc fuel st n dst false false; (st, some m, o)
-        | none =>
-          match nd.kind with
-          | .host =>
-            match nd.gateway with
-            | none => (st, none, none)
-            | some g =>
-              let (st, m) := arpMac fuel st n g false false
-              -- `get_default_gateway_network_interface` re-reads `has_enabled_network_interface`
-              match st.node? n with
-              | none => (st, m, none)
-              | some nd' =>
-                if nd'.ifaces.any (·.enabled) then
-                  let (st, o) := arpIfc fuel st n g false false; (st, m, o)
-                else (st, m, none)
-          | .router =>
-            match (findBestRoute nd.routes dst).nextHop? with
-            | none => (st.emit (.raised n), none, none)
-            | some nh =>
-              let (st, m) := arpMac fuel st n nh false false
-              let (st, o) := arpIfc fuel st n nh false false
-              (st, m, o)
-          | .switch => (st, none, none)
-      match out, dmac with
-      | some o, some m =>
-        match st.iface? n o with
-        | none => st
-        | some oif =>
-          let f : Frame := { id := st.nextId, srcMac := oif.mac, dstMac := m, srcIp := oif.ip, dstIp := dst, ttl := initTtl, pl := pl }
-          (sendFrame fuel { st with nextId := st.nextId + 1 } n o f).1
-      | _, _ => st
+    let r := resolveDetails fuel st n dst
+    match r.2.2, r.2.1 with
+    | some o, some m =>
+      match r.1.iface? n o with
+      | none => r.1
+      | some oif =>
+        (sendFrame fuel { r.1 with nextId := r.1.nextId + 1 } n o
+          { id := r.1.nextId, srcMac := oif.mac, dstMac := m, srcIp := oif.ip, dstIp := dst, ttl := initTtl, pl := pl }).1
+    | _, _ => r.1
 
 /-- `SessionManager.resolve_outbound_network_interface` / `RouterSessionManager.resolve_outbound_network_interface`. -/
 def resolveOut (fuel : Nat) (st : St) (n : Nat) (dst : Ip) : St × Option Nat :=
@@ -445,15 +454,15 @@ def sendArpReq (fuel : Nat) (st : St) (n : Nat) (target : Ip) : St :=
       match target? with
       | none => st
       | some target =>
-        let (st, out) := resolveOut fuel st n target
-        match out with
-        | none => st
+        let r := resolveOut fuel st n target
+        match r.2 with
+        | none => r.1
         | some o =>
-          match st.iface? n o with
-          | none => st
+          match r.1.iface? n o with
+          | none => r.1
           | some oif =>
-            if target == oif.netAddr || target == oif.bcastAddr then st
-            else sendArpPkt fuel st n (.arpReq oif.ip oif.mac target) target
+            if target == oif.netAddr || target == oif.bcastAddr then r.1
+            else sendArpPkt fuel r.1 n (.arpReq oif.ip oif.mac target) target
 
 /-- `Router.receive_frame` (default ACL: ARP is exempt, ICMP is permitted by rule 23). -/
 def routerRecv (fuel : Nat) (st : St) (n i : Nat) (f : Frame) : St × Frame :=
@@ -475,10 +484,10 @@ def routerRecv (fuel : Nat) (st : St) (n i : Nat) (f : Frame) : St × Frame :=
           if tIp == ifc.ip then (st.modNode n (fun nd => nd.addArp sIp sMac i), f) else (st, f)
         | .echoReq ident =>
           if !own.enabled then (st, f) else
-          let (st, out) := resolveOut fuel st n f.srcIp
-          match out with
-          | none => (st, f)
-          | some _ => (sendIcmp fuel st n f.srcIp (.echoRep ident), f)
+          let r := resolveOut fuel st n f.srcIp
+          match r.2 with
+          | none => (r.1, f)
+          | some _ => (sendIcmp fuel r.1 n f.srcIp (.echoRep ident), f)
         | .echoRep ident =>
           if !own.enabled then (st, f)
           else (st.modNode n (fun nd => { nd with replies := bumpReply nd.replies ident }), f)
@@ -492,46 +501,43 @@ def routerProcess (fuel : Nat) (st : St) (n i : Nat) (f : Frame) : St × Frame :
   | fuel + 1 =>
     -- fix: layer-2 broadcasts are never forwarded
     if f.dstMac == bcastMac then (st, f) else
-    let (st, oifc) := arpIfc fuel st n f.dstIp false false
-    let (st, tmac) := arpMac fuel st n f.dstIp false false
-    match tmac, oifc with
+    let r1 := arpIfc fuel st n f.dstIp false false
+    let r2 := arpMac fuel r1.1 n f.dstIp false false
+    match r2.2, r1.2 with
     | some tm, some o =>
-      match st.iface? n o with
-      | none => (st, f)
+      match r2.1.iface? n o with
+      | none => (r2.1, f)
       | some oif =>
-        if !oif.enabled then (st, f)
+        if !oif.enabled then (r2.1, f)
         else if oif.inNet f.dstIp then
-          let st := st.emit (.hop n f.id f.ttl)
-          let f := f.dec
-          if f.ttl < 1 then (st, f) else sendFrame fuel st n o (f.stamp oif.mac tm)
+          if f.dec.ttl < 1 then (r2.1.emit (.hop n f.id f.ttl), f.dec)
+          else sendFrame fuel (r2.1.emit (.hop n f.id f.ttl)) n o (f.dec.stamp oif.mac tm)
         else
           -- `route_frame`
-          match st.node? n with
-          | none => (st, f)
+          match r2.1.node? n with
+          | none => (r2.1, f)
           | some nd =>
             match findBestRoute nd.routes f.dstIp with
-            | .raised => (st.emit (.raised n), f)
+            | .raised => (r2.1.emit (.raised n), f)
             | res =>
               match res.nextHop? with
-              | none => (st, f)
+              | none => (r2.1, f)
               | some nh =>
-                let (st, oifc) := arpIfc fuel st n nh false false
-                let (st, tmac) := arpMac fuel st n nh false false
-                match oifc with
-                | none => (st, f)
+                let r3 := arpIfc fuel r2.1 n nh false false
+                let r4 := arpMac fuel r3.1 n nh false false
+                match r3.2 with
+                | none => (r4.1, f)
                 | some o =>
-                  match st.iface? n o with
-                  | none => (st, f)
+                  match r4.1.iface? n o with
+                  | none => (r4.1, f)
                   | some oif =>
-                    if !oif.enabled then (st, f) else
-                    let st := st.emit (.hop n f.id f.ttl)
-                    let f := f.dec
-                    if f.ttl < 1 then (st, f)
+                    if !oif.enabled then (r4.1, f) else
+                    if f.dec.ttl < 1 then (r4.1.emit (.hop n f.id f.ttl), f.dec)
                     else
                       -- `target_mac` may be `None` here: the code writes it into the header unchecked
-                      let tm := match tmac with | some m => m | none => noMac
-                      sendFrame fuel st n o (f.stamp oif.mac tm)
-    | _, _ => (st, f)
+                      sendFrame fuel (r4.1.emit (.hop n f.id f.ttl)) n o
+                        (f.dec.stamp oif.mac (match r4.2 with | some m => m | none => noMac))
+    | _, _ => (r2.1, f)
 
 end
 
@@ -544,15 +550,15 @@ def ping (fuel : Nat) (st : St) (n : Nat) (target : Ip) (pings : Nat) : St × Bo
     if !nd.on then (st, false) else
     let ident := st.nextId
     let st := { st with nextId := st.nextId + 1 }
-    let (st, ok) := (List.range pings).foldl (fun (acc : St × Bool) _ =>
+    let res := (List.range pings).foldl (fun (acc : St × Bool) _ =>
       if !acc.2 then acc else
-      let (st, out) := resolveOut fuel acc.1 n target
-      match out with
-      | none => (st, false)
-      | some _ => (sendIcmp fuel st n target (.echoReq ident), true)) (st, true)
-    match st.node? n with
-    | none => (st, false)
-    | some nd' => (st, ok && replyCount nd'.replies ident == some pings)
+      let r := resolveOut fuel acc.1 n target
+      match r.2 with
+      | none => (r.1, false)
+      | some _ => (sendIcmp fuel r.1 n target (.echoReq ident), true)) (st, true)
+    match res.1.node? n with
+    | none => (res.1, false)
+    | some nd' => (res.1, res.2 && replyCount nd'.replies ident == some pings)
 
 /-- `IPWiredNetworkInterface.enable` (+ `default_gateway_hello` on hosts). -/
 def enableIface (fuel : Nat) (st : St) (n i : Nat) : St :=
